@@ -235,7 +235,17 @@ func Abs(ts TypeSpec, omit bool, v reflect.Value) AbsVal {
 			null = NullEither
 		}
 	default:
-		a = AbsVal{K: "?" + ts.K}
+		if ck, ok := Custom[ts.K]; ok {
+			a = ck.Abs(v)
+			if a.Nullable {
+				return a // registered union schema
+			}
+			if v.IsZero() {
+				null = NullEither // what "zero" means for a custom type is the custom codec's business
+			}
+		} else {
+			a = AbsVal{K: "?" + ts.K}
+		}
 	}
 	if omit {
 		a.Nullable = true
